@@ -1,0 +1,61 @@
+//go:build verif
+
+package zlib
+
+// Contracts for the gocv verifier (/verif/DESIGN.md). Comments only; compiled only with the build tag "verif".
+// wOK, wClosed, wStuck, lcFresh are defined in compress/flate/internal/deflate/zz_contracts_verif.go.
+
+// ---------------------------------------------------------------------------
+// Writer
+// ---------------------------------------------------------------------------
+
+//@ pure zwBase(z *Writer) bool = z.w != nil && -2 <= z.level && z.level <= 9 && (z.compressor != nil ==> wOK(z.compressor) && z.digest != nil) && (z.wroteHeader && z.err == nil ==> z.compressor != nil) && (!z.wroteHeader && z.compressor != nil ==> !wClosed(z.compressor) && !wStuck(z.compressor)) && (z.err != nil ==> z.wroteHeader) && (z.closed ==> z.wroteHeader)
+//@ pure zwOK(z *Writer) bool = zwBase(z) && (z.err == nil && z.wroteHeader ==> (z.closed == wClosed(z.compressor)) && (!z.closed ==> !wStuck(z.compressor)))
+//@ pure zwFresh(z *Writer) bool = zwOK(z) && !z.wroteHeader && !z.closed && z.err == nil && (z.compressor != nil ==> !wClosed(z.compressor) && !wStuck(z.compressor) && (z.compressor.lc != nil ==> lcFresh(z.compressor.lc)))
+
+//@ func NewWriterLevelDict
+//@   requires w != nil
+//@   modifies nothing
+//@   ensures[C16 level-valid] (result1 != nil) == (level < -2 || level > 9)
+//@   ensures[C12 C16 ctor-inv] result1 == nil ==> result0 != nil && zwFresh(result0) && result0.compressor == nil && result0.level == level && result0.w == w
+//@   ensures result1 != nil ==> result0 == nil
+
+//@ func (*Writer).Reset
+//@   requires w != nil && -2 <= z.level && z.level <= 9 && (z.compressor != nil ==> wShape(z.compressor) && z.digest != nil)
+//@   modifies *z, **z.compressor
+//@   ensures[C12 C16 fresh] zwFresh(z) && same(z.level) && z.w == w && same(z.compressor) && same(z.dict)
+
+//@ func (*Writer).writeHeader
+//@   requires zwBase(z) && !z.wroteHeader
+//@   modifies *z, extWrites
+//@   ensures z.wroteHeader && same(z.w) && same(z.level) && same(z.closed)
+//@   ensures err == nil ==> z.compressor != nil && wOK(z.compressor) && z.digest != nil && !wClosed(z.compressor) && !wStuck(z.compressor)
+//@   ensures old(z.compressor) != nil ==> same(z.compressor) && same(z.digest)
+//@   ensures err != nil && old(z.compressor) == nil ==> z.compressor == nil || wOK(z.compressor) && z.digest != nil
+
+//@ func (*Writer).Write
+//@   requires zwOK(z)
+//@   modifies *z, **z.compressor, extWrites
+//@   ensures[C16 inv] zwOK(z)
+//@   ensures[C14 C16 sticky-in] old(z.err) != nil ==> n == 0 && err == old(z.err) && extWrites == old(extWrites) && same(z.err)
+//@   ensures[C14 sticky-out] err != nil ==> z.err == err
+//@   ensures[C16 closed] old(z.closed) && old(z.err) == nil && len(p) > 0 ==> err != nil && extWrites == old(extWrites)
+//@   ensures[C10 hdr-first] z.wroteHeader
+
+//@ func (*Writer).Flush
+//@   requires zwOK(z)
+//@   modifies *z, **z.compressor, extWrites
+//@   ensures[C16 inv] zwOK(z)
+//@   ensures[C14 C16 sticky-in] old(z.err) != nil ==> result == old(z.err) && extWrites == old(extWrites) && same(z.err)
+//@   ensures[C14 sticky-out] result != nil ==> z.err == result
+//@   ensures[C16 closed] old(z.closed) && old(z.err) == nil ==> result != nil && extWrites == old(extWrites)
+//@   ensures[C10 hdr-first] z.wroteHeader
+
+//@ func (*Writer).Close
+//@   requires zwOK(z)
+//@   modifies *z, **z.compressor, extWrites
+//@   ensures[C16 inv] zwOK(z)
+//@   ensures[C14 C16 sticky-in] old(z.err) != nil ==> result == old(z.err) && extWrites == old(extWrites) && same(z.err)
+//@   ensures[C14 sticky-out] result != nil ==> z.err == result
+//@   ensures[C16 idempotent-close] old(z.closed) && old(z.err) == nil ==> result == nil && extWrites == old(extWrites)
+//@   ensures[C16 closes] result == nil ==> z.closed
